@@ -795,6 +795,19 @@ def install(pool=False):
     cancel_on_shutdown.RLock = DRLock
     fbool.Lock = DLock
     fzip.Lock = DLock
+    # Zipper.count_remaining: `self.count_remaining -= 1` is a read and a write; outside the operation's own lock the update can be preempted in
+    # between (never the case in the unchanged code, where the counter is only touched under `self.lock`)
+    if hasattr(fzip, "Zipper") and not isinstance(fzip.Zipper.__dict__.get("count_remaining"), property):
+        def _cr_get(self):
+            v = self.__dict__.get("_verif_cr", 0)
+            lk = self.__dict__.get("lock")
+            if S is not None and me() is not None and not S.aborting and not S.quiet and not (lk is not None and getattr(lk, "owner", None) is me()):
+                switch("zip.counter")
+            return v
+
+        def _cr_set(self, v):
+            self.__dict__["_verif_cr"] = v
+        fzip.Zipper.count_remaining = property(_cr_get, _cr_set)
     ftimeout.LOCK = DLock()
     ftimeout.EXECUTOR_REF = None
     # the process-wide sync executor behind wrap()/f_map/... was created at import time with a real Lock
